@@ -262,7 +262,12 @@ finish:
   child.err = redirect_destroy(child.err, options.redirect.err.type);
 #endif
 
-  pipe_destroy(child.exit);
+  if (r != 0) {
+    // In the forked child (`r == 0`), the write end of the exit pipe has to
+    // stay open until the child exits: the parent detects that the child has
+    // exited by this pipe being closed.
+    pipe_destroy(child.exit);
+  }
 
   if (r < 0) {
     process->handle = process_destroy(process->handle);
